@@ -17,7 +17,7 @@ ASSUMPTIONS = [
 ]
 EXHAUSTIVE = {"flag": False, "scope": "sampled grids; every cell text of the dictionary is used in every column position class"}
 ANCHOR_FUNCS = ["csv:read_csv", "csv:_read_csv_from_file", "csv:_infer_type"]
-REQUIRED_STRATA = {"csv": 600, "csv-empty": 10, "csv-cellrule": 60}
+REQUIRED_STRATA = {"csv-raw": 40, "csv": 600, "csv-empty": 10, "csv-cellrule": 60}
 
 
 def cell_rule(text):
@@ -42,13 +42,30 @@ def cell_class(text):
 	return "None" if v is None else type(v).__name__
 
 
-def run_csv(chk, spec):
-	o, text = common.do_csv(spec)
+def run_csv(chk, spec, raw_text=None):
+	if raw_text is not None:
+		import io
+		import os
+		import tempfile
+		from ..bind import serif
+		text = raw_text
+		if spec["via"] == "path":
+			fd, path = tempfile.mkstemp(prefix="serifmon-", suffix=".csv")
+			try:
+				with os.fdopen(fd, "w", encoding="utf-8", newline="") as f:
+					f.write(text)
+				o = call(serif.read_csv, path, delimiter=spec["delimiter"], has_header=spec["has_header"])
+			finally:
+				os.unlink(path)
+		else:
+			o = call(serif.read_csv, io.StringIO(text, newline=""), delimiter=spec["delimiter"], has_header=spec["has_header"])
+	else:
+		o, text = common.do_csv(spec)
 	grid = spec["grid"]
 	ncols = spec["ncols"]
 	names = list(spec["header"]) if spec["header"] is not None else [f"col_{i}" for i in range(ncols)]
 	exp_cols = [[cell_rule(row[c]) if c < len(row) else None for row in grid] for c in range(ncols)]
-	stratum = ("csv-cellrule" if spec.get("pattern") == "cellrule" else "csv") if grid else "csv-empty"
+	stratum = ("csv-cellrule" if spec.get("pattern") == "cellrule" else ("csv-raw" if spec.get("pattern") == "raw" else "csv")) if grid else "csv-empty"
 	chk.judged(stratum, ("csv", spec["delimiter"], spec["has_header"], spec.get("pattern"), spec["via"], len(grid) > 0,
 		tuple(sorted({cell_class(row[c]) if c < len(row) else "pad" for row in grid})) if False else tuple(tuple(sorted({cell_class(row[c]) if c < len(row) else "pad" for row in grid})) for c in range(min(ncols, 3)))))
 	if not o.ok:
@@ -108,7 +125,25 @@ def run_cellrule(chk, spec):
 	run_csv(chk, spec)
 
 
-RUNNERS = {"csv": run_csv}
+def run_raw(chk, spec):
+	"""hand-written file text; the lexical oracle is the csv module itself (default dialect + the delimiter), the cell rule on top"""
+	import csv as _csv
+	import io
+	text, delim, has_header = spec["text"], spec["delimiter"], spec["has_header"]
+	recs = list(_csv.reader(io.StringIO(text, newline=""), delimiter=delim))
+	if not recs:
+		return
+	width = len(recs[0])
+	if any(len(r) > width for r in recs) or any(len(r) == 0 for r in recs):
+		chk.skip("raw-longer-record-or-blank-line")
+		return
+	header = recs[0] if has_header else None
+	grid = recs[1:] if has_header else recs
+	s2 = {"op": "csv", "header": header, "grid": grid, "delimiter": delim, "has_header": has_header, "ncols": width, "via": spec["via"], "pattern": "raw", "raw_text": text}
+	run_csv(chk, s2, raw_text=text)
+
+
+RUNNERS = {"csv": run_csv, "raw": run_raw}
 
 EXTRA_CELLS = ["crlf\r\ninside", "old\rmac", "-2_5", "1__0", "_1", "1_", "+.5e-3", "0b1", "1e400", "NaN", "  -inf ", "٣", "１２", "1 000", " ", "x "]
 
@@ -132,6 +167,16 @@ def run(chk):
 				chk.case("csv", {"op": "csv", "header": hdr, "grid": [], "delimiter": delim, "has_header": True, "ncols": len(hdr), "via": via, "pattern": "header-only"}, "csv-empty")
 			chk.case("csv", {"op": "csv", "header": None, "grid": [], "delimiter": delim, "has_header": False, "ncols": 0, "via": via, "pattern": "empty"}, "csv-empty")
 			chk.case("csv", {"op": "csv", "header": None, "grid": [], "delimiter": delim, "has_header": True, "ncols": 0, "via": via, "pattern": "empty"}, "csv-empty")
+	RAW = [
+		'a,b\r\n1, "x, y"\r\n', 'a,b,c\r\n1, "x, y"\r\n', 'a, b\r\n 1, 2\r\n', 'a,b\n1,"x, y"\n2, "z"\n', 'a;b\r\n1; "p; q"\r\n', 'a b c\r\n1  3\r\n4 5 6\r\n', 'a b\r\n 2\r\n',
+		'a,b\r\n"1" ,2\r\n', 'a,b\r\n1,"2"x\r\n', "a,b\r\n'1',2\r\n", 'a\tb\r\n1\t "q"\r\n', 'x,y\n  ,  \n1,2\n', 'x,y\n"",""\n', 'x|y\n1| "a|b"\n', 'a,b\r\n1,\r\n,2\r\n',
+		'a,b\n1,2\n3\n', 'a,b\n"multi\nline",2\n', 'h\n+5\n 7 \n1_000\n0x10\n', '1,2\n3,4\n', '1, "x, y"\n2,3,4\n',
+	]
+	for text in RAW:
+		for delim in ([",", " "] if " " in text.split("\n")[0] and "," not in text.split("\n")[0] else [d for d in (",", ";", "\t", "|", " ") if d in text] or [","]):
+			for has_header in (True, False):
+				for via in ("fileobj", "path"):
+					chk.case("raw", {"text": text, "delimiter": delim, "has_header": has_header, "via": via}, "csv-raw")
 	for _ in range(900 if chk.quick() else 6000):
 		spec = common.gen_csv_spec(rng, max_rows=rng.choice([4, 8]))
 		chk.case("csv", spec, "csv-sampled")
